@@ -406,6 +406,12 @@ class HTTPChannel(wasyncore.dispatcher):
 
         if self.total_outbufs_len > self.adj.outbuf_high_watermark:
             with self.outbuf_lock:
+                if not self.connected:
+                    # the main thread tore the channel down after the
+                    # unlocked check above: there is nothing left to flush
+                    # and nobody would ever wake us up again
+                    return
+
                 _, exception = self._flush_exception(self._flush_some, do_close=False)
 
                 if exception:
